@@ -210,6 +210,50 @@ func runC03(c *Check) {
 						srcs = append(srcs, ss...)
 					}
 					if !all || len(srcs) == 0 {
+						// a classification computed from the membership tests is a different shape; one
+						// that does not depend on them at all is not a classification of new / known
+						depends := false
+						seenV := map[ssa.Value]bool{}
+						var look func(v ssa.Value, d int)
+						look = func(v ssa.Value, d int) {
+							if v == nil || seenV[v] || d > 8 {
+								return
+							}
+							seenV[v] = true
+							if inUnconf(v) || inMemPool(v) {
+								depends = true
+								return
+							}
+							switch x := v.(type) {
+							case *ssa.Phi:
+								for _, e := range x.Edges {
+									look(e, d+1)
+								}
+								// control dependence: a phi of constants chosen by a membership test
+								for _, p := range x.Block().Preds {
+									if iff, ok := lastIf(p); ok {
+										look(iff.Cond, d+1)
+									}
+								}
+							case *ssa.UnOp:
+								look(x.X, d+1)
+							case *ssa.BinOp:
+								look(x.X, d+1)
+								look(x.Y, d+1)
+							case *ssa.Call:
+								if calleeShort(&x.Call) == "(*spynode.Node).IsRelevant" {
+									depends = true
+								}
+							}
+						}
+						for _, ev := range vals {
+							look(ev, 0)
+						}
+						if !depends {
+							c.Bad("R3", "spynode.(*Node).ProcessBlock#isNew-follows-membership", call.Pos(), "value flow", nil,
+								"the new / already-delivered classification appended for a block tx is neither a constant chosen by the membership tests nor computed from them: txs are classified by an unrelated value, so a new relevant tx can be treated as already delivered (its stored state does not exist) or a delivered one as new")
+							continue
+						}
 						c.Undecided("R3", "spynode.(*Node).ProcessBlock#isNew-append-shape", call.Pos(), "appended value is not a bool constant")
 						continue
 					}
@@ -441,7 +485,7 @@ func runC03(c *Check) {
 									}
 									continue
 								}
-								if r2, _ := reachAvoid2(b.Succs[errBranch], pred, nil, map[*ssa.BasicBlock]bool{call.Block(): true}); r2 || pred == b.Succs[errBranch] {
+								if r2, _ := reachFromNode(mkNode(b, b.Succs[errBranch]), pred, nil, map[*ssa.BasicBlock]bool{call.Block(): true}); r2 || pred == b.Succs[errBranch] {
 									bad = true
 									wit = []string{"the (nil) result flows into " + phi.Name() + " from the error path at " + c.P.Pos(lastPos(pred))}
 								}
@@ -449,7 +493,7 @@ func runC03(c *Check) {
 						}
 						continue
 					}
-					if r2, _ := reachAvoid2(b.Succs[errBranch], ui.Block(), nil, map[*ssa.BasicBlock]bool{call.Block(): true}); r2 || ui.Block() == b.Succs[errBranch] {
+					if r2, _ := reachFromNode(mkNode(b, b.Succs[errBranch]), ui.Block(), nil, map[*ssa.BasicBlock]bool{call.Block(): true}); r2 || ui.Block() == b.Succs[errBranch] {
 						bad = true
 						wit = []string{"used at " + c.P.Pos(ui.Pos()) + " on the error path"}
 					}
@@ -499,6 +543,11 @@ func runC03(c *Check) {
 	// ---- R10 (added after seeded round 2)
 	c.ruleRemoveReportsBody("R10")
 	c.ruleOwnStateReadAfterGate("R12")
+	c.ruleFetchedCursorAdvances("R13")
+	c.ruleConfirmedStateComplete("R15")
+	c.ruleIndexBoundOnSameIndex("R16", "spynode.fetchSpentOutputs")
+	c.ruleFlagOnlyFromCall("R14", "spynode.(*Node).ProcessBlock", "(*state.MemPool).RemoveTransaction", "in-mempool-flag",
+		"the in-mempool classification of a block tx is constant true where the mempool is not consulted (node not ready): every tx of a block processed before the node is ready is skipped as already seen, so relevant txs in those blocks are never delivered")
 
 	// ---- R9 the gate discriminates
 	if fn := c.Fn("R9", "storage.(*TxRepository).Add"); fn != nil && unconf != nil {
